@@ -18,8 +18,15 @@ func TestMain(m *testing.M) {
 	if d := os.Getenv("VERIF_SCRATCH"); d != "" {
 		os.MkdirAll(d, 0o755)
 	}
+	// the code under test prints listings (Reflog.Show, DeleteBranch): keep them out of the logs
+	if devnull, err := os.OpenFile(os.DevNull, os.O_WRONLY, 0); err == nil && os.Getenv("VERIF_API_STDOUT") == "" {
+		os.Stdout = devnull
+	}
 	rc := m.Run()
 	stats.Flush()
+	if theFixture != nil {
+		theFixture.close()
+	}
 	os.Exit(rc)
 }
 
@@ -32,12 +39,12 @@ func TestReplay(t *testing.T) {
 	}
 	r, err := findings.Load(p)
 	if err != nil {
-		fmt.Println("REPLAY-INFRA: cannot load replay:", err)
+		fmt.Fprintln(os.Stderr, "REPLAY-INFRA: cannot load replay:", err)
 		t.Fatal(err)
 	}
 	f, ok := replayers[r.Kind]
 	if !ok {
-		fmt.Println("REPLAY-INFRA: unknown replay kind", r.Kind)
+		fmt.Fprintln(os.Stderr, "REPLAY-INFRA: unknown replay kind", r.Kind)
 		t.Fatal("unknown kind")
 	}
 	if err := f(r.Property, r.Case); err != nil {
